@@ -98,9 +98,18 @@ pub fn run(tier: &str) -> Part {
             part.machinery_errors.push(format!("binconf: {}: {}", r["name"].as_str().unwrap_or(""), diffs[0]));
             continue;
         }
-        let kind = diffs.first().map(|d| d.split(':').next().unwrap_or("").split(" sim=").next().unwrap_or("").trim().replace(' ', "-")).unwrap_or_default();
-        // strip the client index from the signature
-        let kind = kind.trim_start_matches(|c: char| c == 'c' || c.is_ascii_digit() || c == '-').to_string();
+        let first = diffs.first().cloned().unwrap_or_default();
+        let kind = if first.starts_with("client ") {
+            first.split_whitespace().nth(2).unwrap_or("client").trim_end_matches(':').to_string()
+        } else if first.starts_with("exit happened") {
+            "exit-happened".to_string()
+        } else if first.starts_with("exit status") {
+            "exit-status".to_string()
+        } else if first.starts_with("exit instant") {
+            "exit-instant".to_string()
+        } else {
+            "other".to_string()
+        };
         let name = r["name"].as_str().unwrap_or("").to_string();
         let sigpat = name.split("signal=").nth(1).unwrap_or("").to_string();
         let v = Violation {
